@@ -122,9 +122,14 @@ def correspondences(tier, rng):
                 sc = supportScalar(loc, sup)
                 if j == k_ and sc != 1: return "support %d %r is %r at its own master %r" % (j, sup, sc, loc)
                 if j > k_ and sc != 0: return "support %d %r is %r at the earlier master %d %r" % (j, sup, sc, k_, loc)
-            # the order the theorem assumes: a later master never has a strict subset of an earlier master's axes
+            # the hypotheses of model_reproduces_masters_sorted, checked on what VariationModel hands the computation: fewer axes
+            # first, distinct locations, every value inside the axis range
             for j in range(k_ + 1, len(m.locations)):
-                if set(m.locations[j]) < set(loc): return "master order: %r before %r" % (loc, m.locations[j])
+                if len(m.locations[j]) < len(loc): return "master order: %r before %r" % (loc, m.locations[j])
+                if m.locations[j] == loc: return "duplicate location %r" % (loc,)
+            for a, v in loc.items():
+                lo, hi = m.axisRanges[a]
+                if not (lo <= v <= hi and lo <= 0 <= hi): return "location %r outside the axis range %r of %s" % (loc, (lo, hi), a)
         return None
     out.append(Corr("supports", scases, impl_sup, enc=enc_s, oracle=oracle_sup))
     def impl_w(x):
